@@ -3,8 +3,7 @@
  (b) ThreadRunner._reclaim_available_slots does not count a thread that declared it is waiting
      (_waiting_for_results), so a waiting task frees its slot;
  (c) a final status releases the waiters (part 1).
-The composition (any finite call tree completes with one slot) is an argument from (a)-(c), stated not verified;
-the full thread-runner simulation (DESIGN 2.5 stage 2) is not built.
+The composition (call trees complete with one slot) is checked by the thread-runner simulation in props/C09_sim.py.
 """
 
 from engine.core import Cond, Ctx
@@ -132,5 +131,4 @@ def run(ctx: Ctx) -> None:
     ctx.functions_encoded += ["BaseOrchestrator.get_invocations_to_run/get_blocking_invocations_to_run (blocking-first policy)",
                               "ThreadRunner._reclaim_available_slots/_waiting_for_results"]
     ctx.bounds["runner mechanisms"] = "queue of 0-3 ordinary invocations + one awaited child at any position, limit 1-2, both backends; 3 threads x (alive, waiting) flags, 1-3 slots"
-    ctx.assumptions += ["'any finite call tree completes with one slot' is an argument from the three verified mechanisms (blocking-first claim, waiting threads free their slot, final status releases waiters); "
-                        "the full thread-runner simulation is not built"]
+    ctx.assumptions += ["the mechanisms are also exercised together by the thread-runner simulation (C09_sim) for 6 tree shapes"]
